@@ -257,6 +257,14 @@ def run_cases(ck: Check, n: int):
             elif kind == "timecourse":
                 nfr = rng.choice([0, 1, 2, 5, 12])
                 members = [gen_collection(rng, n=rng.choice([0, 0, 1, 2, 3]), uniform=rng.random() < 0.9) for _ in range(nfr)]
+                if nfr >= 2 and rng.random() < 0.4:
+                    # a stationary stretch: the SAME non-empty frame recorded again at later times (identical members, different time stamps)
+                    k0 = rng.randrange(nfr - 1)
+                    if not members[k0]:
+                        members[k0] = gen_collection(rng, n=2, uniform=True)
+                    for k in range(k0 + 1, min(nfr, k0 + 1 + rng.choice([1, 2, 3]))):
+                        members[k] = list(members[k0])
+                    ck.count("timecourse.with_repeated_identical_frames")
                 times = gen_times(rng, nfr)
                 obj = EmulsionTimeCourse([build_emulsion(m) for m in members], times)
                 case = {"kind": kind, "members": [len(m) for m in members], "times": [float(t) for t in times]}
